@@ -32,11 +32,27 @@ def load_yaml(
         mapping._start_line = node._start_line
         return mapping
 
+    def str_constructor(loader: yaml.Loader, node: yaml.nodes.Node) -> str:
+        # An escape such as "\ud800" yields a lone surrogate: not a character, and not
+        # encodable as UTF-8 (and hence not as JSON or BSON) by the backends.
+        value: str = loader.construct_scalar(node)
+        try:
+            value.encode("utf-8")
+        except UnicodeEncodeError as err:
+            raise yaml.error.MarkedYAMLError(
+                problem=f"invalid character: {err.reason}",
+                problem_mark=node.start_mark,
+            )
+        return value
+
     result: List[SerializableType] = []
     try:
         loader = MyLoader(text)
         loader.add_constructor(
             yaml.resolver.BaseResolver.DEFAULT_MAPPING_TAG, dict_constructor
+        )
+        loader.add_constructor(
+            yaml.resolver.BaseResolver.DEFAULT_SCALAR_TAG, str_constructor
         )
         # Loop on check_data() rather than on the truthiness of the document, so
         # that an empty document does not silently drop every document after it.
